@@ -107,6 +107,10 @@ def main():
                 "how_to_rerun": "tools/try_seeded_wt.sh <worktree of /repo HEAD> /verif/seeded/%s/patch.diff <ID>..." % sid,
                 "applies_to_repo_head": {"commit": head, "applies": applies},
             }
+            if sid == "C06-r3-1":
+                meta["rebased"] = ("the author's patch was written against 1f1d639; fixes 3012243 and 2a0c413 changed the same lines, so I "
+                                   "ported the change (skip generating the target of a first assignment) to the repaired code; the "
+                                   "demonstration still passes without and fails with the ported patch (tools/confirm_seeded.sh at 04eec6f)")
             json.dump(meta, open(os.path.join(dst, "meta.json"), "w"), indent=1)
             print("stored", sid, "applies" if applies else "DOES NOT APPLY")
 
